@@ -39,7 +39,7 @@ func (l *List) MultiUse(st funcGen.Stack[Value]) (Map, error) {
 		prList, run, done := iterator.CopyProducer[Value](len(muList))
 		for i, mu := range muList {
 			pr := prList[i]
-			go mu.runConsumer(pr, done)
+			go mu.runConsumer(st.NewChildStack(), pr, done)
 		}
 		err := run(l.iterable(st))
 
@@ -65,19 +65,21 @@ type multiUseList []*multiUseEntry
 // the closure panics, the panic is recovered and also sent to the result
 // channel. if the closure returns a list, the list is evaluated before it is
 // sent to the result channel.
-func (mu *multiUseEntry) runConsumer(itera iterator.Producer[Value], done func(error)) {
-	st := funcGen.NewEmptyStack[Value]()
+func (mu *multiUseEntry) runConsumer(st funcGen.Stack[Value], itera iterator.Producer[Value], done func(error)) {
 	used := false
 	var innerErr error
-	st.Push(NewListFromIterable(func(st funcGen.Stack[Value]) iterator.Producer[Value] {
+	list := NewListFromIterable(func(st funcGen.Stack[Value]) iterator.Producer[Value] {
 		if used {
 			innerErr = errors.New("copied iterator a can only be used once")
 			return iterator.Empty[Value]()
 		}
 		used = true
 		return itera
-	}))
-	value, err := callRecover(mu.fu, st, nil)
+	})
+	value, err := callRecover(func(st funcGen.Stack[Value], cs []Value) (Value, error) {
+		st.Push(list)
+		return mu.fu(st, cs)
+	}, st, nil)
 	if innerErr != nil {
 		done(innerErr)
 		return
